@@ -9,7 +9,10 @@ import numpy as np
 from .coqrun import run_cases
 from .monitors import key
 
-HEADER = ("From Coq Require Import ZArith List Bool. Import ListNotations. From HV Require Import Ord Select.\nOpen Scope Z_scope.\n"
+HEADER = ("From Coq Require Import ZArith List Bool. Import ListNotations. From HV Require Import Ord Select Pop.\nOpen Scope Z_scope.\n"
+          "Definition popcase (table : list Z) (p : list (Z * option Z)) (new : list Z) (de : bool) : list Z :=\n"
+          "  let f := fun g : Z => nth (Z.to_nat g) table 0 in let q := if de then de_trial Z.eqb p new else update_genome Z.eqb p new in\n"
+          "  Z.of_nat (length (requests q)) :: map (fun r => match snd r with Some v => v | None => 0 end) (evaluate f q).\n"
           "Definition ob (o : option Z) : list Z := match o with Some b => [1; b] | None => [0] end.\n")
 
 
@@ -151,8 +154,58 @@ def run_case(p):
     return c
 
 
+def pop_case(rng):
+    """Population.update_genome + evaluate (and the DE keep-fitness rule through the real Crossover) against Model/Pop.v"""
+    from pyhms.core.population import Population
+    from pyhms.core.problem import FunctionProblem
+    from pyhms.demes.single_pop_eas import de as de_mod
+    n, dim = rng.choice([1, 2, 4, 7, 12]), rng.choice([1, 2, 3])
+    grid = [[float(rng.randint(-2, 2)) for _ in range(dim)] for _ in range(rng.randint(2, 6))]
+    intern = {}
+
+    def gid(g):
+        t = tuple(float(x) for x in g)
+        if t not in intern:
+            intern[t] = len(intern)
+        return intern[t]
+    calls = []
+
+    def obj(x):
+        calls.append(tuple(float(v) for v in x))
+        return float(sum((i + 1) * v * v - 0.5 * v for i, v in enumerate(x)))
+    prob = FunctionProblem(obj, np.array([[-3.0, 3.0]] * dim), rng.random() < 0.5)
+    G = np.array([rng.choice(grid) for _ in range(n)], dtype=float)
+    Fv = np.array([obj(g) if rng.random() < 0.7 else np.nan for g in G], dtype=float)
+    calls.clear()
+    new = np.array([list(g) if rng.random() < 0.5 else rng.choice(grid) for g in G], dtype=float)
+    de = rng.random() < 0.4
+    pop = Population(G.copy(), Fv.copy(), prob)
+    if de:
+        # the real Crossover with every gene taken from the mutated population: new_fitness = where(all(new == old), old, nan)
+        st = np.random.get_state()
+        try:
+            out = de_mod.Crossover()(pop, Population(new.copy(), np.full(n, np.nan), prob), 2.0)
+        finally:
+            np.random.set_state(st)
+    else:
+        out = pop.copy()
+        out.update_genome(new.copy())
+    ncall0 = len(calls)
+    out.evaluate()
+    ids_old, ids_new = [gid(g) for g in G], [gid(g) for g in new]
+    table = [0] * len(intern)
+    for t, i in intern.items():
+        table[i] = k_(float(sum((j + 1) * v * v - 0.5 * v for j, v in enumerate(t))))
+    rows = "[" + "; ".join(f"({i}, {'None' if np.isnan(f) else 'Some (' + str(k_(f)) + ')'})" for i, f in zip(ids_old, Fv)) + "]"
+    impl = [len(calls) - ncall0] + [k_(f) for f in out.fitnesses]
+    ok_genomes = [gid(g) for g in out.genomes] == ids_new
+    untouched = np.array_equal(pop.genomes, G) and np.array_equal(pop.fitnesses, Fv, equal_nan=True)
+    return {"kind": "pop-de" if de else "pop", "mx": prob.maximize, "fs": [float(x) for x in Fv], "impl": impl, "impl_ids": ids_new, "genomes_ok": ok_genomes, "parent_untouched": untouched,
+            "true": [table[i] for i in ids_new], "term": f"popcase {zl(table)} {rows} {zl(ids_new)} {'true' if de else 'false'}"}
+
+
 def gen_cases(rng, n):
-    return [run_case(gen_params(rng, ci)) for ci in range(n)]
+    return [run_case(gen_params(rng, ci)) if ci % 8 != 7 else pop_case(rng) for ci in range(n)]
 
 
 def mirror_check(rng, n):
@@ -177,6 +230,14 @@ def mirror_check(rng, n):
 def laws(c):
     """executable component laws on the implementation's output (the monitor); returns a description or None"""
     mx, fs, kind = c["mx"], c["fs"], c["kind"]
+    if kind in ("pop", "pop-de"):
+        if not c["genomes_ok"]:
+            return "update_genome / crossover did not deliver the requested genomes"
+        if not c["parent_untouched"]:
+            return "the operator changed the arrays of the population it was given (history would be mutated in place)"
+        if c["impl"][1:] != c["true"]:
+            return f"after evaluate() some row does not carry the objective value of its genome: stored keys {c['impl'][1:]}, true {c['true']}"
+        return None
     g = (lambda v: -k_(v)) if mx else k_
     if kind == "topk":
         kept = list(c["impl_ids"])
